@@ -5,6 +5,7 @@ CONSTANTS
   MaxSteps = 5
   Classes = {"GoodKA", "BadLine", "BadCL", "TlsHello", "Truncate", "Rest"}
   Racing = FALSE
-  DefectSets = {{}, {"keepbuf", "echo505"}}
+  Linger = FALSE
+  DefectSets = {{}, {"stalebuf"}}
 INVARIANT TypeOK
 CHECK_DEADLOCK FALSE
